@@ -6,8 +6,8 @@ Import ListNotations.
 (* the shadow-stack monitor only observes: the monitored run IS the machine's run, for every
    program, oracle, fuel and starting state *)
 Theorem C06_monitor_does_not_disturb :
-  forall val (A : valg val) O p fuel s stk log,
-    fst (fst (mrun A O p fuel s stk log)) = run A O p fuel s.
+  forall val (A : valg val) entries O p fuel s stk log,
+    fst (fst (mrun A entries O p fuel s stk log)) = run A O p fuel s.
 Proof. intros. apply mrun_state. Qed.
 
 (* push ra / pop ra insertion, fixed-slot convention: for EVERY function body of the emitted
